@@ -106,7 +106,12 @@ def float_history(spec):
         yk = gn - G[-1]
         curv = bool(float((xn - X[-1]).dot(yk)) > 2.2e-16 * float(yk.dot(yk)))
         th0, W0 = mats.theta, mats.W
-        mats = update_lbfgs_matrices(xn.copy(), gn, X, G, maxcor, mats, False)
+        try:
+            mats = update_lbfgs_matrices(xn.copy(), gn, X, G, maxcor, mats, False)
+        except Exception:  # noqa: BLE001 - the routine under test raised: reported as a failed fact
+            ev.append({"e": "MemUpd", "cand": pid(xn), "before": before, "ids": before, "curv": curv, "allCurv": False,
+                       "matsSame": False, "compact": False, "spd": False, "secant": False, "theta": False})
+            break
         after = [pid(a) for a in X]
         allc = all(float((X[j + 1] - X[j]).dot(G[j + 1] - G[j])) > 2.2e-16 * float((G[j + 1] - G[j]).dot(G[j + 1] - G[j]))
                    for j in range(len(X) - 1))
